@@ -142,7 +142,8 @@ def run(ctx, chk):
     ok = len(sb.returns) == 1 and sb.returns[0][1][0] == "tuple" and len(sb.returns[0][1][1]) == 2
     if ok:
         lo, hi = sb.returns[0][1][1]
-        H = f"each({gb.params[0]}.scenario_dict['host'].values())"
+        HD = f"{gb.params[0]}.scenario_dict['host']"
+        H = f"{HD}[each({HD})]"
 
         from .shapes import extremum_candidates
         lo_args = extremum_candidates(ip, cn, lo, "min")
